@@ -311,10 +311,10 @@ theorem encode_no_panic (P : Profile) (hwf : ProfileWF P = true) (arch : Endian)
     · exact encodeOne_no_panic P hwf arch _ hf.fid.1
     · cases hcr : f.creator with
       | none => simp
-      | some m => exact encodeOne_no_panic P hwf arch m (hf.creator m hcr)
+      | some m => exact encodeOne_no_panic P hwf arch m (hf.creator m hcr).1
     · cases hts : f.tscorr with
       | none => simp
-      | some m => exact encodeOne_no_panic P hwf arch m (hf.tscorr m hts)
+      | some m => exact encodeOne_no_panic P hwf arch m (hf.tscorr m hts).1
     · have hms : ms ∈ f.slots := (List.of_mem_zip hmem).2
       obtain ⟨j, hj⟩ := List.mem_iff_getElem?.mp hms
       have hso := hf.slots i hi j ms hj
